@@ -5,61 +5,61 @@ import json, subprocess, os
 
 CLAIMS = {
  # id: (level text, technique, design_ref)
- "C01": ("Structural necessary conditions of exactly-once/in-order/unmodified fan-out decided on every path and call site of the current source: single producer path and single consumer per queue, same object broadcast, push-exactly-once path rule, no store into published packets, adapters write the packet they were given. Does not decide delivery histories or wire bytes.",
+ "C01": ("Structural necessary conditions of exactly-once/in-order/unmodified fan-out decided on every path and call site of the current source: single producer path and single consumer per queue, same object broadcast, push-exactly-once path rule, no store into published packets, adapters write the packet they were given. Also: the join lock makes cache+broadcast atomic with snapshot+register, every connection write is under the session write lock, consumer ids come from the atomic increment result, and no element of any array/slice field of a published packet is written. Does not decide delivery histories or wire bytes.",
          "custom SSA path-state + call-graph ownership analysis (go/ssa, VTA)", "DESIGN.md §3 C01"),
 
- "C02": ("Structural necessary conditions of gap-free, repeat-free joining decided on every path: one Stream mutex held across cache+broadcast and across snapshot+register; every PushTo replays all non-nil parameter sets in order before the GOP (FLV copies restamped to the first GOP tag); the three CachePack siblings obey one reset/append/flag discipline under their lock. Does not decide classification of every packetisation or timestamp values.",
+ "C02": ("Structural necessary conditions of gap-free, repeat-free joining decided on every path: one Stream mutex held across cache+broadcast and across snapshot+register; every PushTo replays all non-nil parameter sets in order before the GOP (FLV copies restamped to the first GOP tag); the three CachePack siblings obey one reset/append/flag discipline under their lock. Also: published tags are never restamped in place, key-frame constants agree across siblings, the restamp guard admits a one-tag GOP, fragmentation units are classified only on their start bit. Does not decide classification of every packetisation or timestamp values.",
          "custom SSA lockset + path-state + sibling-agreement analysis", "DESIGN.md §3 C02"),
- "C03": ("Structural necessary conditions of release decided on every path: no lost wake-up on close for all four queue workers, attach cannot survive a close, Stream.close closes every closable field, connection counters are paired by a deferred Release, count updated atomically with the map, every registered consumer type's Close closes its connection. Does not decide promptness or goroutine census.",
+ "C03": ("Structural necessary conditions of release decided on every path: no lost wake-up on close for all four queue workers, attach cannot survive a close, Stream.close closes every closable field, connection counters are paired by a deferred Release, count updated atomically with the map, every registered consumer type's Close closes its connection. Also: the map lookup deciding a count update is inside the same critical section, Unregist closes its stream on every path, consumer ids are unique, write errors of a closed stream reach the publisher loop. Does not decide promptness or goroutine census.",
          "custom SSA path-state + lockset + call-graph analysis", "DESIGN.md §3 C03"),
- "C04": ("Structural necessary conditions of consumer isolation: publisher call graph reaches no blocking operation nor any Consume; consume loop has recover->detach->close; discarding toggles only on key-frame edges under the right backlog comparison; limit constant 1000. Does not decide the numeric backlog bound.",
+ "C04": ("Structural necessary conditions of consumer isolation: publisher call graph reaches no blocking operation nor any Consume; consume loop has recover->detach->close; discarding toggles only on key-frame edges under the right backlog comparison; limit constant 1000. Also: the cleanup detaches before it closes, no consumer code runs under the join lock, fragmentation units are key-frame edges only on their start bit. Does not decide the numeric backlog bound.",
          "module-bounded call-graph reachability + SSA path-state", "DESIGN.md §3 C04"),
 
- "C05": ("Structural necessary conditions of registry consistency decided on every path and call site: canonical keys only, delete-if-same, no Stream.Close while still registered, idle guard reads every consumer set, Regist retires the previous holder, Get returns only registry entries. Does not decide racing registrations or listings at an instant.",
+ "C05": ("Structural necessary conditions of registry consistency decided on every path and call site: canonical keys only, delete-if-same, no Stream.Close while still registered, idle guard reads every consumer set, Regist retires the previous holder, Get returns only registry entries. Also: Unregist closes on every path, the idle guard reads HLS access from a field the constructor assigns, CanonicalPath never bypasses path.Clean and keeps a trailing slash. Does not decide racing registrations or listings at an instant.",
          "custom SSA path-state + dependence + who-may-call analysis", "DESIGN.md §3 C05"),
 
- "C06": ("Structural necessary conditions of exact depacketisation decided on every path of the FU and aggregation handlers (sibling rules for H.264/H.265): guarded fragment append, sequence-gap reset, emission only at the end bit with cleared state, aggregated units copied verbatim after a size check, one RTP timestamp per packet. Does not decide byte equality or timestamp arithmetic.",
+ "C06": ("Structural necessary conditions of exact depacketisation decided on every path of the FU and aggregation handlers (sibling rules for H.264/H.265): guarded fragment append, sequence-gap reset, emission only at the end bit with cleared state, aggregated units copied verbatim after a size check, one RTP timestamp per packet. Also: the gap check cannot drop a start fragment, the clock anchor is set once, the AAC AU-size field keeps all 13 bits, sequence numbers are compared in 16 bits. Does not decide byte equality or timestamp arithmetic.",
          "custom SSA path-state (typestate) + sibling-agreement analysis", "DESIGN.md §3 C06"),
 
- "C07": ("Structural necessary conditions of panic containment: every goroutine root that reaches publisher/camera parsing has a recover registered first; per-packet code in the publishing session indexes packet bytes only where the Go compiler's prove pass shows the index in range; converter loops drop a bad item under a per-item recover; parameter-set decoders convert panics to errors; aggregation scans make progress. Does not decide correctness of later conversion.",
+ "C07": ("Structural necessary conditions of panic containment: every goroutine root that reaches publisher/camera parsing has a recover registered first; per-packet code in the publishing session indexes packet bytes only where the Go compiler's prove pass shows the index in range; converter loops drop a bad item under a per-item recover; parameter-set decoders convert panics to errors; aggregation scans make progress. Also: the recover handlers themselves are panic-free, in-band parameter sets never overwrite the shared metadata. Does not decide correctness of later conversion.",
          "call-graph reachability + SSA dominance + compiler bounds-check-elimination report (no execution)", "DESIGN.md §3 C07"),
 
- "C08": ("Structural necessary conditions of valid, faithful FLV output: tag framing constants evaluated (11-byte header, size field, PreviousTagSize = 11+len, 9-byte file header), unsigned timestamp rebasing guarded, headers precede media on every path, each packetiser's tag fields derive from the right frame fields, key-frame constants agree across sibling implementations. Does not decide that emitted bytes parse back to the source frames.",
-         "constant/table evaluation + SSA dependence + path-state + sibling agreement", "DESIGN.md §3 C08"),
+ "C08": ("Structural necessary conditions of valid, faithful FLV output: tag framing constants evaluated (11-byte header, size field, PreviousTagSize = 11+len, 9-byte file header), unsigned timestamp rebasing guarded, headers precede media on every path, each packetiser's tag fields derive from the right frame fields, key-frame constants agree across sibling implementations. Also (bit-provenance abstract interpretation): the 11-byte tag header and the video/audio tag body bytes are composed bit for bit as the FLV layout requires and the reader reproduces every field. Does not decide that emitted bytes parse back to the source frames.",
+         "constant/table evaluation + bit-provenance abstract interpretation over SSA + dependence + path-state + sibling agreement", "DESIGN.md §3 C08"),
 
- "C09": ("Structural necessary conditions of valid TS output: the PAT/PMT literal is evaluated completely from source (lengths, PIDs, stream types, CRC-32/MPEG recomputed), every sink write is the table or a whole [188]byte packet with sync byte, exactly one PID-selected continuity-counter increment per packet masked to 4 bits, packetiser frame fields derive from the source frame with the fixed PID/stream-id constants, ADTS length constants agree between writer and reader, SPS/PPS inserted only before IDR. Does not decide payload fidelity or stuffing/PTS arithmetic.",
-         "constant-table evaluation (incl. CRC recomputation) + SSA path-state + dependence", "DESIGN.md §3 C09"),
+ "C09": ("Structural necessary conditions of valid TS output: the PAT/PMT literal is evaluated completely from source (lengths, PIDs, stream types, CRC-32/MPEG recomputed), every sink write is the table or a whole [188]byte packet with sync byte, exactly one PID-selected continuity-counter increment per packet masked to 4 bits, packetiser frame fields derive from the source frame with the fixed PID/stream-id constants, ADTS length constants agree between writer and reader, SPS/PPS inserted only before IDR. Also (bit-provenance abstract interpretation): PTS/DTS/PCR and TS header bit layouts, PES length guard, ADTS header round trip; stuffing is inserted only when the data is strictly shorter than the body and adds to an existing adaptation field length. Does not decide payload fidelity or stuffing/PTS arithmetic.",
+         "constant-table evaluation (incl. CRC recomputation) + bit-provenance abstract interpretation over SSA + path-state + dependence", "DESIGN.md §3 C09"),
 
- "C10": ("Structural necessary conditions of consistent HLS output: no alias of a pooled buffer escapes (playlist bytes, in-memory segment readers), the segment list is accessed only under its lock, segment cuts are dominated by the key-frame test (one recorded known finding: audio-triggered cut), one window constant for readiness and retention, playlist header fields derive from the listed segments, a closed segment is published or deleted-with-number-reuse. Does not decide sequence arithmetic, durations or byte identity.",
+ "C10": ("Structural necessary conditions of consistent HLS output: no alias of a pooled buffer escapes (playlist bytes, in-memory segment readers), the segment list is accessed only under its lock, segment cuts are dominated by the key-frame test (one recorded known finding: audio-triggered cut), one window constant for readiness and retention, playlist header fields derive from the listed segments, a closed segment is published or deleted-with-number-reuse. Also: no use of a pooled buffer after Put, forced-cut threshold at least twice the fragment, segment files opened with O_TRUNC, segment storage and lookup by number under the lock. Does not decide sequence arithmetic, durations or byte identity.",
          "pooled-alias escape analysis + lockset + SSA path-state + constant evaluation", "DESIGN.md §3 C10"),
 
  "C11": ("Structural necessary conditions of authorisation on every entry point: sinks dominated by the right permission check on every RTSP/HTTP/API chain (who-may-reach over the call graph + path-sensitive guard facts), grant-without-check paths decided by configuration only, path checked = path served, WSP data-channel join compared with the control session, rights recompiled from scratch, tokens from crypto/rand, access vs refresh token guards, per-request user. Does not decide digest arithmetic, expiry timing or the matcher language.",
          "call-graph who-may-reach + path-sensitive guard-fact analysis + SSA dependence", "DESIGN.md §3 C11"),
 
- "C12": ("Structural necessary conditions of one-response-per-request and legal method order: interprocedural response counting with correlated boolean summaries (exactly one on every path), response construction only in newResponse with CSeq/Session, state assignments only in their handlers after success, handlers gated by onPreprocess, complete abstract evaluation of the state gate over status x method against the reference automaton (refusals 455 and pure), teardown releases. Does not decide transport/SDP validity or header content beyond CSeq/Session.",
+ "C12": ("Structural necessary conditions of one-response-per-request and legal method order: interprocedural response counting with correlated boolean summaries (exactly one on every path), response construction only in newResponse with CSeq/Session, state assignments only in their handlers after success, handlers gated by onPreprocess, complete abstract evaluation of the state gate over status x method against the reference automaton (refusals 455 and pure), teardown releases. Also: the role change (pusher/consumer) is reachable only with the session mode (and TCP transport for RECORD) established, status advances only on the success edge, response write+flush in one lock section. Does not decide transport/SDP validity or header content beyond CSeq/Session.",
          "SSA path-state with interprocedural summaries + finite-domain abstract evaluation", "DESIGN.md §3 C12"),
 
- "C13": ("Lockset facts over all writers of each shared connection: every writing use holds the owning session's write mutex, response write and flush share one critical section, each WebSocket message is one write of a freshly assembled whole buffer, the buffered connection writes caller data directly only when its buffer is known empty and has no background goroutine. Does not decide kernel partial-write behaviour.",
+ "C13": ("Lockset facts over all writers of each shared connection: every writing use holds the owning session's write mutex, response write and flush share one critical section, each WebSocket message is one write of a freshly assembled whole buffer, the buffered connection writes caller data directly only when its buffer is known empty and has no background goroutine. Also: no use of a pooled buffer after it was put back, and no per-session buffer is touched outside the write lock. Does not decide kernel partial-write behaviour.",
          "custom SSA lockset analysis + path-state", "DESIGN.md §3 C13"),
 
- "C14": ("Structural necessary conditions of exact RTSP framing: wire-sized allocations bounded (16-bit origin or dominating comparison with a constant), header line accumulation bounded, body read errors propagated, the dispatcher reads exactly one unit per call after a peek, packets constructed only by the wire reader, reader and writer agree on the interleaved prefix layout. Does not decide round-trip equality or chunking independence.",
-         "SSA dominance/bounds-guard analysis + path-state + constant evaluation", "DESIGN.md §3 C14"),
+ "C14": ("Structural necessary conditions of exact RTSP framing: wire-sized allocations bounded (16-bit origin or dominating comparison with a constant), header line accumulation bounded, body read errors propagated, the dispatcher reads exactly one unit per call after a peek, packets constructed only by the wire reader, reader and writer agree on the interleaved prefix layout. Also: wire readers never use a bare Read and the dispatcher peeks at most 4 bytes, the interleaved prefix round-trips bit for bit, Content-Length is written iff a body is written (sibling writers), ReadPacket stores the table index as channel. Does not decide round-trip equality or chunking independence.",
+         "SSA dominance/bounds-guard analysis + path-state + bit-provenance abstract interpretation + constant evaluation", "DESIGN.md §3 C14"),
 
- "C15": ("Structural necessary conditions of correct, total parameter parsing: decoders convert panics to errors, every bit-reader result depends on the buffer, emulation-prevention removal precedes parsing, the dimension/frame-rate accessors read every syntax element the standards define them from and the decoders parse those elements from the stream, stream metadata taken from the decoded parameter sets. Does not decide numeric equality with the standards.",
-         "SSA data-dependence (interprocedural) + dominance", "DESIGN.md §3 C15"),
+ "C15": ("Structural necessary conditions of correct, total parameter parsing: decoders convert panics to errors, every bit-reader result depends on the buffer, emulation-prevention removal precedes parsing, the dimension/frame-rate accessors read every syntax element the standards define them from and the decoders parse those elements from the stream, stream metadata taken from the decoded parameter sets. Also: syntax-structure clauses of the standards decided on the decoder shape - crop-unit table under every chroma format/field coding (bit-provenance evaluation under assumed configuration), sub-layer ordering loop start (VPS/SPS siblings), RPS counts derived, no tautological loop exit, signed arithmetic before subtraction, 64-bit/float rate arithmetic, H.264 high-profile set, ASC explicit-extension truth table and read order, se(v) parity mapping, emulation prevention removed once, ASC decoded on the SDP path, guard/offset agreement of shifted table indices. One known finding (H.265 fixed-rate flag). Does not decide numeric equality with the standards.",
+         "SSA data-dependence (interprocedural) + dominance + finite-domain evaluation of branch chains + bit-provenance abstract interpretation + constant-set comparison with the standards", "DESIGN.md §3 C15"),
 
- "C16": ("PARTIAL: the property itself (language equivalence of the pattern matcher over all pattern/path pairs) is value-level and is NOT decided. Decided are structural necessary conditions around the matcher: push/pull matcher selection by right, grant only on some pattern's match, '*' default only for administrators with an empty right, ';' splitting, case folding on both sides, wildcard literals and their compile-time handling, the two segment-count guards.",
+ "C16": ("PARTIAL: the property itself (language equivalence of the pattern matcher over all pattern/path pairs) is value-level and is NOT decided. Decided are structural necessary conditions around the matcher: push/pull matcher selection by right, grant only on some pattern's match, '*' default only for administrators with an empty right, ';' splitting, case folding on both sides, wildcard literals and their compile-time handling, the two segment-count guards. Also: the pattern loop visits every element, partCount counts every separator.",
          "SSA path-sensitive guard facts + constant evaluation (partial; matcher semantics not decided)", "DESIGN.md §3 C16, §4"),
 
- "C17": ("Structural necessary conditions of route resolution: canonicalise, refuse directory paths, exact lookup first with return on hit; the scan's candidate is replaced only by a longer matching pattern (iteration-order independent maximisation); lookups write only to copies and return copies; URL join offsets under the URL-ends-in-slash test; result pattern = requested path; pathMatch prefix/equality shape; the factory receives the matched route's fields. Does not decide the joined URL text for every URL form.",
+ "C17": ("Structural necessary conditions of route resolution: canonicalise, refuse directory paths, exact lookup first with return on hit; the scan's candidate is replaced only by a longer matching pattern (iteration-order independent maximisation); lookups write only to copies and return copies; URL join offsets under the URL-ends-in-slash test; result pattern = requested path; pathMatch prefix/equality shape; the factory receives the matched route's fields. Also: CanonicalPath cleans on every path and keeps the trailing slash, Save copies the update on every path. Does not decide the joined URL text for every URL form.",
          "SSA phi/guard pattern analysis + store-site ownership", "DESIGN.md §3 C17"),
 
  "C18": ("Structural necessary conditions of durable, consistent tables: the persisting function never opens the destination for writing and on every success path writes, syncs, then renames a temporary file over it (crash atomicity decided from the order and targets of the file-system calls on every path, with error nil-ness correlation); table fields accessed only under the table lock; password kept unless asked; keys canonicalised before use; full list flushed and pending lists cleared only after success; default admin only when the file is missing. Does not decide model equality of table contents over histories.",
          "SSA path-state over file-system effects + lockset", "DESIGN.md §3 C18"),
 
- "C19": ("Complete static evaluation of the multiplexer's prefix tables (every RTSP method listed, OPTIONS in exactly the four RTSP forms, no RTSP entry captures an HTTP request line, overlaps resolved by registration order) and path-state facts on the hand-off (one send per connection after doneSniffing, unmatched connections closed, sniff deadline armed and cleared only when matched). Does not decide byte-exact replay of sniffed data for every chunking.",
+ "C19": ("Complete static evaluation of the multiplexer's prefix tables (every RTSP method listed, OPTIONS in exactly the four RTSP forms, no RTSP entry captures an HTTP request line, overlaps resolved by registration order) and path-state facts on the hand-off (one send per connection after doneSniffing, unmatched connections closed, sniff deadline armed and cleared only when matched). Also: matchers read the sniff window with ReadFull, the sniffer switches to the raw connection only after the replay, a source error is remembered only together with buffered bytes. Does not decide byte-exact replay of sniffed data for every chunking.",
          "constant-table evaluation + SSA path-state", "DESIGN.md §3 C19"),
- "C20": ("Structural necessary conditions of a well-behaved pull: every blocking read of the camera connection dominated by a configured read deadline, Open's failure paths disconnect (deferred closure over the named error result, every step's error stored there, first failure stops), the play goroutine's cleanup releases/unregisters/disconnects on every path and is registered first, authentication retries bounded with a checked final status, factory fails closed, SDP format reads guarded. Does not decide wire behaviour or racing first requests.",
+ "C20": ("Structural necessary conditions of a well-behaved pull: every blocking read of the camera connection dominated by a configured read deadline, Open's failure paths disconnect (deferred closure over the named error result, every step's error stored there, first failure stops), the play goroutine's cleanup releases/unregisters/disconnects on every path and is registered first, authentication retries bounded with a checked final status, factory fails closed, SDP format reads guarded. Also: every handshake step error is tested, the SDP parse error is tested before the session is used, the write error of a closed stream reaches the read loop, a 401 is retried whenever credentials exist, Unregist closes a replaced pulled stream. Does not decide wire behaviour or racing first requests.",
          "SSA dominance + path-state + call-graph cycle check", "DESIGN.md §3 C20"),
 }
 NA = {
